@@ -125,6 +125,43 @@ def evaluate(e, st, name):
         return float("inf")
 
 
+def exact(e, st, name):
+    """the value in ℚ (no rounding), or None where ℚ has no value (division by zero, NaN operands)"""
+    from fractions import Fraction
+    k = e[0]
+    if k == "lit":
+        return Fraction(str(e[1]))
+    if k == "col":
+        return Fraction(st.st_size if e[1] == "size" else st.st_nlink)
+    if k == "len":
+        return Fraction(len(name))
+    if k == "neg":
+        v = exact(e[1], st, name)
+        return None if v is None else -v
+    if k == "call":
+        vs = [exact(a, st, name) for a in e[2]]
+        if any(v is None for v in vs):
+            return None
+        return abs(vs[0]) if e[1] == "abs" else (min(vs) if e[1] == "least" else max(vs))
+    a, b = exact(e[2], st, name), exact(e[3], st, name)
+    if a is None or b is None:
+        return None
+    op = e[1]
+    if op == "+":
+        return a + b
+    if op == "-":
+        return a - b
+    if op == "*":
+        return a * b
+    if b == 0:
+        return None
+    if op == "/":
+        return a / b
+    q = a / b
+    t = q.numerator // q.denominator if q >= 0 else -((-q.numerator) // q.denominator)
+    return a - t * b
+
+
 def ill_conditioned(e, st, name):
     """a `%` applied to a non-integral (rounded) operand: the result is discontinuous in the operands, and the
     model, which computes in ℚ and only tracks *that* a value was rounded, cannot predict it; likewise a division
@@ -143,9 +180,16 @@ def ill_conditioned(e, st, name):
         if d == 0 and math.copysign(1.0, d) < 0:
             return True         # division by negative zero: ℚ has no signed zero
     if e[1] == "%":
+        from fractions import Fraction
         for sub in (e[2], e[3]):
             v = evaluate(sub, st, name)
-            if not (math.isnan(v) or math.isinf(v)) and v != int(v):
+            if math.isnan(v) or math.isinf(v):
+                continue
+            if v != int(v):
+                return True
+            # a rounded operand that happens to be integral in f64 is just as unpredictable for the model
+            x = exact(sub, st, name)
+            if x is None or Fraction(v) != x:
                 return True
     return False
 
